@@ -453,6 +453,12 @@ func (i *blobInst) Apply(a Action) stepReport {
 				continue
 			case lost && siblingRefused(calls, src) == "refused":
 				v.Sig = "cloud_blob/round-stops-at-sibling-blob-refused-by-processor"
+
+				// the recorded finding is about blobs processed after a refused one. A blob that is gone from the bucket
+				// is unloaded before anything is loaded, so it is never behind a refused one - unless that order changed
+				if o.class == oGone {
+					v.Sig = "cloud_blob/removed-blob-still-active-because-other-blobs-were-processed-before-its-unload"
+				}
 			case lost && i.sys.variant == "single-blob" && o.class == oGone:
 				v.Sig = "cloud_blob/single-blob-url-missing-blob-not-unloaded"
 			case strings.Contains(v.Sig, "change-not-applied") && i.b.noMD5:
